@@ -518,6 +518,16 @@ func (e *SpecEnv) evalCall(x *ast.CallExpr) Val {
 			ls = append(ls, vc.rvLoad(e.st, n, sBV64, v.L[iObj], cellKey(v)))
 		}
 		return Val{T: t, L: ls}
+	case "govcBinsize":
+		// number of bytes binary.Write emits for the dynamic type of x (0: not a fixed-size scalar)
+		v := e.eval(x.Args[0])
+		if len(v.L) != 2 {
+			e.fail(x, "binsize of a non-interface value")
+		}
+		return Val{T: types.Typ[types.Int], L: []string{vc.binSizeTerm(v.L[0])}}
+	case "govcTagsize":
+		v := e.eval(x.Args[0])
+		return Val{T: types.Typ[types.Int], L: []string{vc.binSizeTerm(v.L[0])}}
 	case "govcRvindirect":
 		// reflect.Indirect(v) as the extern models it (a pointer to a message struct is followed)
 		v := e.eval(x.Args[0])
